@@ -151,8 +151,8 @@ Definition xrecord (limit fuel : nat) (o : xevent) : option (list call) :=
   option_map fst (xvisit (rec_lim limit) no_infinity fuel o []).
 
 (* ------------------------------------------------------------------ fuel
-   number of steps of the merged iteration that certainly suffices: every RDATE, every rule candidate of a bounded
-   rule; for an unbounded rule the candidates up to the finite bound of the range and the largest removed date, + 2 *)
+   number of steps of the merged iteration that suffices (Proofs/C16Ext.v: *_total): every RDATE and every rule candidate
+   of a bounded rule, + 1; for an unbounded rule see xinf_fuel *)
 Definition xrule_len (o : xevent) : Z :=
   match xe_rule o with
   | Some rr => match r_bound rr with
@@ -162,15 +162,14 @@ Definition xrule_len (o : xevent) : Z :=
                end
   | None => 0
   end.
+Definition xe_period (o : xevent) : Z := match xe_rule o with Some rr => r_period rr | None => 1 end.
+(* no removed date (EXDATE, RECURRENCE-ID) lies beyond this *)
+Definition xskip_bound (o : xevent) (b : Z) : Z := ex_bound (ex_bound b (xe_ex o)) (xe_rids o).
+(* unbounded rule: every RDATE, the rule candidates up to the first one beyond b and beyond every removed date, + 2 *)
+Definition xinf_fuel (o : xevent) (b : Z) : nat :=
+  S (S (length (xe_extras o) + Z.to_nat ((xskip_bound o b - xe_start o) / xe_period o + 1))).
 Definition xhull_fuel (o : xevent) : nat :=
-  S (length (xe_extras o) + Z.to_nat (xrule_len o)
-     + (if xe_infinite o then length (xe_ex o) + length (xe_over o) + 1 else 0))%nat.
+  if xe_infinite o then xinf_fuel o (xe_start o)
+  else S (length (xe_extras o) + Z.to_nat (xrule_len o)).
 Definition xmatch_fuel (o : xevent) (r : trange) : nat :=
-  match xe_rule o with
-  | Some rr =>
-      if xe_infinite o
-      then S (S (length (xe_extras o)
-                 + Z.to_nat ((ex_bound (ex_bound (range_bound r) (xe_ex o)) (xe_rids o) - xe_start o) / r_period rr + 1)))%nat
-      else xhull_fuel o
-  | None => xhull_fuel o
-  end.
+  if xe_infinite o then xinf_fuel o (range_bound r) else xhull_fuel o.
